@@ -16,10 +16,11 @@ import (
 // C27 — tenants are routed to the hashring their configuration selects.
 //
 // ops (grammar: lean/Thanos/Driver/Hashring.lean)
-//   route  <cfgs> <reqs>    one real receive.NewMultiHashring (every configuration a one-node hashmod
-//                           ring "ring-<i>", so the answering node identifies the chosen hashring);
-//                           the requests are made in order on that instance (cache in play)
-//                           -> `;`-list of ring index | none | err
+//   route  <cfgs> <reqs>    one real receive.NewMultiHashring; every configuration is a hashmod ring of 1..3
+//                           nodes whose addresses identify the hashring; the requests (tenant, replica index
+//                           n in 0..3) are made in order on that instance (cache in play)
+//                           -> `;`-list of ring index | <i>!<size> (the "insufficient nodes" error of hashring
+//                              i, i = the ring the multi hashring holds for the tenant) | none | err
 //   routem <cfgs> <req>     malformed-pattern stream: one request on 300 fresh instances, the
 //                           set of outcomes -> i | none | err | i?err
 //
@@ -29,6 +30,8 @@ import (
 // oracle (independent of the model), for lines without malformed patterns:
 //   * every answer is the first configuration, in order, that has no tenant list, or lists the
 //     tenant (type exact / empty), or has a glob pattern matching it (type glob)   (wrong-ring)
+//   * an out-of-range replica index gets the error of that configuration's hashring, never a node of a
+//     later accepting hashring (error-falls-through), and the cache holds the selected hashring (cache-wrong)
 //   * repeating a request gives the same ring                                       (unstable)
 //   * 8 goroutines doing all requests concurrently on a fresh instance get, for every request,
 //     the sequential answer                                                          (concurrent-differs)
@@ -39,6 +42,7 @@ func init() { register("C27", genC27, execC27) }
 type routeCfg struct {
 	typ     string // e x g o
 	tenants []string
+	size    int // nodes of the (hashmod) sub-hashring, 1..3
 }
 
 func (c routeCfg) matcher() string {
@@ -57,10 +61,17 @@ func parseRouteCfgs(s string) ([]routeCfg, bool) {
 	var out []routeCfg
 	for _, t := range hlib.Split(s, "|") {
 		p := strings.Split(t, ":")
-		if len(p) != 2 || !strings.Contains("exgo", p[0]) || len(p[0]) != 1 {
+		if (len(p) != 2 && len(p) != 3) || !strings.Contains("exgo", p[0]) || len(p[0]) != 1 {
 			return nil, false
 		}
-		c := routeCfg{typ: p[0]}
+		c := routeCfg{typ: p[0], size: 1}
+		if len(p) == 3 {
+			n, err := strconv.Atoi(p[2])
+			if err != nil || n < 1 || n > 9 {
+				return nil, false
+			}
+			c.size = n
+		}
 		if p[1] == "~" { // no tenant list
 			out = append(out, c)
 			continue
@@ -88,6 +99,9 @@ func showRouteCfgs(cs []routeCfg) string {
 			ss[i] = c.typ + ":~"
 		} else {
 			ss[i] = c.typ + ":" + strings.Join(ts, ",")
+		}
+		if c.size > 1 {
+			ss[i] += ":" + strconv.Itoa(c.size)
 		}
 	}
 	return hlib.Join(ss, "|")
@@ -123,20 +137,35 @@ func globTable(cs []routeCfg, tenant string) (string, bool) {
 
 type routeReq struct {
 	tenant, tab string
+	n           int // replica index
+}
+
+func (r routeReq) token() string {
+	t := hlib.HexS(r.tenant) + ":" + r.tab
+	if r.n > 0 {
+		t += ":" + strconv.Itoa(r.n)
+	}
+	return t
 }
 
 func parseReqs(s string) ([]routeReq, bool) {
 	var out []routeReq
 	for _, t := range hlib.Split(s, ";") {
 		p := strings.Split(t, ":")
-		if len(p) != 2 {
+		if len(p) != 2 && len(p) != 3 {
 			return nil, false
 		}
 		b, err := hlib.UnHex(p[0])
 		if err != nil {
 			return nil, false
 		}
-		out = append(out, routeReq{string(b), p[1]})
+		rq := routeReq{tenant: string(b), tab: p[1]}
+		if len(p) == 3 {
+			if rq.n, err = strconv.Atoi(p[2]); err != nil || rq.n < 0 {
+				return nil, false
+			}
+		}
+		out = append(out, rq)
 	}
 	return out, true
 }
@@ -157,37 +186,80 @@ func ringAddr(i int) string {
 	return fmt.Sprintf("10.0.0.1:%d", 10901+i)
 }
 
+// ringNodeAddr is node k of hashring i (node 0 is ringAddr(i)).
+func ringNodeAddr(i, k int) string {
+	if k == 0 {
+		return ringAddr(i)
+	}
+	return fmt.Sprintf("%s-node%d", ringAddr(i), k)
+}
+
 func newMulti(cs []routeCfg) (receive.Hashring, error) {
 	cfg := make([]receive.HashringConfig, len(cs))
 	for i, c := range cs {
+		eps := make([]receive.Endpoint, max(c.size, 1))
+		for k := range eps {
+			eps[k] = receive.Endpoint{Address: ringNodeAddr(i, k)}
+		}
 		cfg[i] = receive.HashringConfig{
 			Hashring:          fmt.Sprintf("ring-%d", i),
 			Tenants:           c.tenants,
 			TenantMatcherType: receive.VerifTenantMatcher(c.matcher()),
-			Endpoints:         []receive.Endpoint{{Address: ringAddr(i)}},
+			Endpoints:         eps,
 		}
 	}
 	return receive.NewMultiHashring(receive.AlgorithmHashmod, 1, cfg, prometheus.NewRegistry())
 }
 
-func askRoute(h receive.Hashring, tenant string) string {
+func askRoute(h receive.Hashring, tenant string) string { return askRouteN(h, tenant, 0) }
+
+// askRouteN asks for replica n.  A node answers with the index of its hashring; the "insufficient
+// nodes" error of a sub-hashring is answered <cached ring>!<have>: the ring the multi hashring has
+// stored for the tenant at that moment (hook) and the size the error reports.
+func askRouteN(h receive.Hashring, tenant string, n int) string {
 	s := seriesSpec{tenant: tenant}
-	e, err := h.GetN(tenant, s.ts(), 0)
+	e, err := h.GetN(tenant, s.ts(), uint64(n))
 	if err != nil {
 		switch {
 		case strings.Contains(err.Error(), "no matching hashring"):
 			return "none"
 		case strings.Contains(err.Error(), "error matching tenant pattern"):
 			return "err"
+		case strings.Contains(err.Error(), "insufficient nodes"):
+			have := "?"
+			if f := strings.Fields(strings.ReplaceAll(err.Error(), ",", " ")); len(f) >= 4 {
+				have = f[3]
+			}
+			c := receive.VerifMultiCached(h, tenant)
+			if c < 0 {
+				return "uncached!" + have
+			}
+			return strconv.Itoa(c) + "!" + have
 		}
 		return "E:" + strings.ReplaceAll(err.Error(), " ", "_")
 	}
 	for i := 0; i < 16; i++ {
-		if ringAddr(i) == e.Address {
-			return strconv.Itoa(i)
+		for k := 0; k < 4; k++ {
+			if ringNodeAddr(i, k) == e.Address {
+				return strconv.Itoa(i)
+			}
 		}
 	}
 	return "?" + e.Address
+}
+
+// expectedAnswer is the property restated with replica indices: the first accepting configuration
+// answers — with a node, or with its own error when it has no replica n.
+func expectedAnswer(cs []routeCfg, tenant string, n int) string {
+	w := firstMatch(cs, tenant)
+	i, err := strconv.Atoi(w)
+	if err != nil {
+		return w
+	}
+	if n >= max(cs[i].size, 1) {
+		return fmt.Sprintf("%d!%d", i, max(cs[i].size, 1))
+	}
+	return w
 }
 
 // firstMatch is the property restated: first configuration that accepts the tenant.
@@ -262,26 +334,45 @@ func execC27(v *vctx, tok []string) string {
 		return classifyBuildErr(err)
 	}
 	answers := make([]string, len(reqs))
-	first := map[string]string{}
+	first := map[string]string{} // tenant -> hashring that answered first (index, none, err)
+	ringOf := func(a string) string { return strings.SplitN(a, "!", 2)[0] }
 	for i, r := range reqs {
-		a := askRoute(h, r.tenant)
+		a := askRouteN(h, r.tenant, r.n)
 		answers[i] = a
 		if prev, ok := first[r.tenant]; ok {
 			v.Count("route:repeated-request")
-			if prev != a {
-				v.Violation("unstable", fmt.Sprintf("tenant %q: first %s, later %s", r.tenant, prev, a))
+			if prev != ringOf(a) {
+				v.Violation("unstable", fmt.Sprintf("tenant %q: first hashring %s, later %s", r.tenant, prev, a))
 			}
 		} else {
-			first[r.tenant] = a
+			first[r.tenant] = ringOf(a)
 		}
 		if !anyBad {
-			if want := firstMatch(cs, r.tenant); want != a {
-				v.Violation("wrong-ring", fmt.Sprintf("tenant %q is served by %s, the first accepting configuration is %s", r.tenant, a, want))
+			want := expectedAnswer(cs, r.tenant, r.n)
+			if want != a {
+				class := "wrong-ring"
+				if strings.Contains(want, "!") && !strings.Contains(a, "!") {
+					class = "error-falls-through"
+				}
+				v.Violation(class, fmt.Sprintf("tenant %q replica %d is answered %s; the first accepting configuration is %s and must answer %s", r.tenant, r.n, a, ringOf(want), want))
+			}
+			// the hashring stored for the tenant is the selected one, whether or not it could serve n
+			if sel := firstMatch(cs, r.tenant); sel != "none" {
+				if c := receive.VerifMultiCached(h, r.tenant); strconv.Itoa(c) != sel {
+					v.Violation("cache-wrong", fmt.Sprintf("tenant %q (replica %d asked): selected hashring %s, cache holds %d", r.tenant, r.n, sel, c))
+				}
 			}
 		}
-		v.Count("route:answer:" + map[bool]string{true: "ring", false: a}[a != "none" && a != "err"])
+		switch {
+		case strings.Contains(a, "!"):
+			v.Count("route:answer:insufficient")
+		case a == "none" || a == "err":
+			v.Count("route:answer:" + a)
+		default:
+			v.Count("route:answer:ring")
+		}
 	}
-	// the cache now holds exactly the answered rings
+	// the cache holds exactly the selected rings
 	for t, a := range first {
 		c := receive.VerifMultiCached(h, t)
 		if i, err := strconv.Atoi(a); err == nil {
@@ -306,7 +397,7 @@ func execC27(v *vctx, tok []string) string {
 					for round := 0; round < 3; round++ {
 						for k := range reqs {
 							i := (k*7 + g*3 + round) % len(reqs)
-							if a := askRoute(h2, reqs[i].tenant); a != answers[i] {
+							if a := askRouteN(h2, reqs[i].tenant, reqs[i].n); a != answers[i] {
 								mu.Lock()
 								diff = fmt.Sprintf("tenant %q: sequential %s, concurrent %s", reqs[i].tenant, answers[i], a)
 								mu.Unlock()
@@ -391,11 +482,29 @@ func genC27(c *hlib.Ctx) {
 				}
 			}
 		}
+		// hashmod sub-hashrings of 1..3 nodes, replica indices 0..3: an index the selected hashring does not
+		// have comes first / in the middle / last for a tenant
+		for k := range cs {
+			cs[k].size = r.Range(1, 3)
+		}
 		reqs := make([]string, nreq)
+		seenT := map[string]bool{}
 		for k := range reqs {
 			t := r.Pick(pool)
 			tab, _ := globTable(cs, t)
-			reqs[k] = hlib.HexS(t) + ":" + tab
+			n := []int{0, 0, 0, 1, 1, 2, 3}[r.Intn(7)]
+			if !seenT[t] && r.Chance(1, 3) {
+				n = r.Range(1, 3) // the first request of the tenant is for a later replica
+			}
+			if w, err := strconv.Atoi(firstMatch(cs, t)); err == nil && n >= cs[w].size {
+				if !seenT[t] {
+					c.Count("route-gen:out-of-range-first")
+				} else {
+					c.Count("route-gen:out-of-range-later")
+				}
+			}
+			seenT[t] = true
+			reqs[k] = routeReq{tenant: t, tab: tab, n: n}.token()
 		}
 		c.Count(fmt.Sprintf("route-gen:cfgs:%d", len(cs)))
 		for _, cf := range cs {
